@@ -448,7 +448,7 @@ func TestVerifC18Migrate(t *testing.T) {
 			t.Fatal(err)
 		}
 		w := &vfWorld{t: t, em: em, mode: "C05", rng: rng, db: db, dir: dir, id: id, wellFormed: true,
-			tipSnaps: map[int]map[string]string{}, visited: map[string]bool{}}
+			tipSnaps: map[string]map[string]string{}, visited: map[string]bool{}}
 		desc := "generated contract history, then every pending migration"
 		switch {
 		case id < len(vmgDirected):
